@@ -26,6 +26,7 @@ TTY_ASSUMPTIONS = [
     "observation uses public API only: a ConditionalEventHandler bound to Event::Any returning None logs line/cursor/mode/argument each time a key reaches the keymap",
     "grapheme segmentation and Unicode tables are the dependencies' own (dumped from the built crate at setup); theorems quantify over all Unicode data",
     "rows/columns below 65536, line below the u16 limits of the layout",
+    "model and implementation are compared on states (text, cursor, mode, argument before every key) and results; the bytes written are compared only where the property is about what is shown (C02 -- whose check also replays a sample of every other interactive stream with the output compared -- C13's message, C19); a difference in output alone is counted in the evidence (output_only_differences) and is not this property's violation",
 ]
 
 
@@ -386,8 +387,9 @@ def fail_case(res, stream, t, why):
                                 "keys": t.case.keys, "cmds": [repr(c) for c in t.cmds], "why": why})
 
 
-def run_spec_stream(res, exe, driver, cases, tmp, stream, seed, typeahead=0.25):
-    out = run_tty_cases(res, exe, driver, cases, tmp, stream, rng=random.Random(seed * 7 + 1), typeahead=typeahead)
+def run_spec_stream(res, exe, driver, cases, tmp, stream, seed, typeahead=0.25, compare_output=False):
+    out = run_tty_cases(res, exe, driver, cases, tmp, stream, compare_output=compare_output, rng=random.Random(seed * 7 + 1),
+                        typeahead=typeahead)
     traces = [Trace(c, impl) for (c, impl, model, raw) in out]
     return out, traces
 
@@ -411,7 +413,7 @@ def check_cc():
 def c01_corr(res, exe, driver, tier, seed, tmp):
     check_cc()
     cases = p_tty.c01_cases(tier, seed)
-    run_tty_cases(res, exe, driver, cases, tmp, "keys", rng=random.Random(seed), typeahead=0.3)
+    run_tty_cases(res, exe, driver, cases, tmp, "keys", compare_output=False, rng=random.Random(seed), typeahead=0.3)
     ocases = c01_oracle_cases(tier, seed)
     out, traces = run_spec_stream(res, exe, driver, ocases, tmp, "keys-spec", seed)
     segs = Segs(exe, tmp)
@@ -422,8 +424,8 @@ def c01_corr(res, exe, driver, tier, seed, tmp):
                              "keys_scripts": len(cases), "spec_scripts": len(ocases)})
     res.rule = ("keys: random emacs/vi scripts (text over 1-4 byte, wide and combining characters; every bound key in its encodings; "
                 "numeric arguments incl. negative and multi-digit; vi operators x motions x counts; C-x, C-v, C-], f/t/r; history; custom "
-                "bindings; printer attached 20%; 30% type-ahead chunking) compared key by key (text, cursor, mode, n, sign), result and "
-                "every byte written, against the extracted model. keys-spec: scripts of commands with an independent documented meaning "
+                "bindings; printer attached 20%; 30% type-ahead chunking) compared key by key (text, cursor, mode, n, sign) and in the "
+                "result against the extracted model (the bytes written are compared by C02's check, which runs these scripts too). keys-spec: scripts of commands with an independent documented meaning "
                 "(self-insert, char/word/line motions, char deletes, line and word kills, vi h l 0 $ w b W B x X D i a A I Esc) evaluated "
                 "on the implementation's own observed states with the crate's own segmentation and Unicode tables.")
     for c, impl, model, raw in out[:3]:
@@ -554,7 +556,7 @@ def c13_corr(res, exe, driver, tier, seed, tmp):
     cases = p_tty.c13_cases(tier, seed)
     run_tty_cases(res, exe, driver, cases, tmp, "validate", rng=random.Random(seed), typeahead=0.3)
     ocases = c13_oracle_cases(tier, seed)
-    out, traces = run_spec_stream(res, exe, driver, ocases, tmp, "validate-spec", seed)
+    out, traces = run_spec_stream(res, exe, driver, ocases, tmp, "validate-spec", seed, compare_output=True)
     kinds = eval_c13(res, traces, "validate-spec")
     import p_direct
     nd = p_direct.c13_direct(res, exe, driver, tier, seed, tmp)
@@ -734,7 +736,7 @@ def c05_known(res, exe):
 def c05_corr(res, exe, driver, tier, seed, tmp):
     c05_known(res, exe)
     cases = p_tty.c05_cases(tier, seed)
-    run_tty_cases(res, exe, driver, cases, tmp, "undo", rng=random.Random(seed), typeahead=0.3)
+    run_tty_cases(res, exe, driver, cases, tmp, "undo", compare_output=False, rng=random.Random(seed), typeahead=0.3)
     ocases = c05_oracle_cases(tier, seed)
     out, traces = run_spec_stream(res, exe, driver, ocases, tmp, "undo-spec", seed, typeahead=0.0)
     stats = eval_c05(res, traces, "undo-spec")
@@ -930,7 +932,7 @@ def c06_known(res, exe):
 def c06_corr(res, exe, driver, tier, seed, tmp):
     c06_known(res, exe)
     cases = p_tty.c06_cases(tier, seed)
-    run_tty_cases(res, exe, driver, cases, tmp, "kill", rng=random.Random(seed), typeahead=0.3)
+    run_tty_cases(res, exe, driver, cases, tmp, "kill", compare_output=False, rng=random.Random(seed), typeahead=0.3)
     ocases = c06_oracle_cases(tier, seed)
     out, traces = run_spec_stream(res, exe, driver, ocases, tmp, "kill-spec", seed)
     stats = eval_c06(res, traces, "kill-spec")
@@ -1056,7 +1058,7 @@ def eval_c07(res, traces, stream):
 
 def c07_corr(res, exe, driver, tier, seed, tmp):
     cases = p_tty.c07_cases(tier, seed)
-    run_tty_cases(res, exe, driver, cases, tmp, "recall", rng=random.Random(seed), typeahead=0.3)
+    run_tty_cases(res, exe, driver, cases, tmp, "recall", compare_output=False, rng=random.Random(seed), typeahead=0.3)
     ocases = c07_oracle_cases(tier, seed)
     out, traces = run_spec_stream(res, exe, driver, ocases, tmp, "recall-spec", seed)
     stats = eval_c07(res, traces, "recall-spec")
@@ -1089,6 +1091,9 @@ def gen_c08(rng):
     if rng.random() < 0.5:
         cmds.append(Cmd([rng.choice(["Left", "C-a"])], "motion"))
     for _ in range(rng.randint(1, 3)):
+        if rng.random() < 0.35:
+            for _ in range(rng.randint(1, 3)):
+                cmds.append(Cmd([rng.choice(["Up", "C-p"])], "motion"))      # browsing an older entry when the search starts
         cmds.append(Cmd(["C-r"], "s_start"))
         for _ in range(rng.randint(0, 9)):
             r = rng.random()
@@ -1204,7 +1209,7 @@ def eval_c08(res, traces, segs, ws, stream):
 
 def c08_corr(res, exe, driver, tier, seed, tmp):
     cases = p_tty.c08_cases(tier, seed)
-    run_tty_cases(res, exe, driver, cases, tmp, "isearch", rng=random.Random(seed), typeahead=0.3)
+    run_tty_cases(res, exe, driver, cases, tmp, "isearch", compare_output=False, rng=random.Random(seed), typeahead=0.3)
     ocases = c08_oracle_cases(tier, seed)
     out, traces = run_spec_stream(res, exe, driver, ocases, tmp, "isearch-spec", seed)
     segs = Segs(exe, tmp)
@@ -1395,7 +1400,7 @@ def eval_c14(res, traces, segs, ws, stream):
 
 def c14_corr(res, exe, driver, tier, seed, tmp):
     cases = p_tty.c14_cases(tier, seed)
-    run_tty_cases(res, exe, driver, cases, tmp, "complete", rng=random.Random(seed), typeahead=0.3)
+    run_tty_cases(res, exe, driver, cases, tmp, "complete", compare_output=False, rng=random.Random(seed), typeahead=0.3)
     ocases = c14_oracle_cases(tier, seed)
     out, traces = run_spec_stream(res, exe, driver, ocases, tmp, "complete-spec", seed)
     segs = Segs(exe, tmp)
@@ -1911,6 +1916,17 @@ def c02_corr(res, exe, driver, tier, seed, tmp):
     out = run_tty_cases(res, exe, driver, cases, tmp, "screen")
     width = vt.Widths(ud_tables())
     stats = eval_c02(res, out, "screen", width)
+    # what the terminal shows during the other properties' flows (search prompt, candidates, recalled entries, undo,
+    # kills and yanks, validator messages, arbitrary key scripts): their own checks compare states only; here every byte
+    # written by a sample of their scripts is compared with the render model
+    flows = {}
+    for name, gen in (("keys", p_tty.c01_cases), ("undo", p_tty.c05_cases), ("kill", p_tty.c06_cases), ("recall", p_tty.c07_cases),
+                      ("isearch", p_tty.c08_cases), ("validate", p_tty.c13_cases), ("complete", p_tty.c14_cases)):
+        fc = gen("quick", seed)
+        fc = fc[:: 2] if tier != "thorough" else fc
+        run_tty_cases(res, exe, driver, fc, tmp, "screen-" + name, rng=random.Random(seed + 5), typeahead=0.3)
+        flows[name] = len(fc)
+    stats["flows"] = flows
     res.distribution.update({"oracle": stats, "scripts": len(cases)})
     res.rule = ("screen: emacs and vi scripts (text of width 0, 1 and 2, line breaks, motions, deletes, kills, yank, undo, history recall of "
                 "multi-line and over-wide entries, clear-screen, hints) in windows of 4 to 80 columns with plain, wide and coloured "
@@ -1918,7 +1934,9 @@ def c02_corr(res, exe, driver, tier, seed, tmp):
                 "independently of that model a VT100 emulator written for this check interprets all bytes the implementation wrote; after "
                 "every chunk the screen from the anchor row down must equal the prompt + line + hint laid out on a blank screen by the "
                 "same emulator, nothing left over, and the cursor must be on the cell of the logical cursor; when the read returns the "
-                "cursor must be after the last character.")
+                "cursor must be after the last character. screen-<flow>: a sample of the scripts of the other interactive "
+                "properties (keys, undo, kill, recall, isearch, validate, complete) with every byte written compared with the "
+                "render model -- those properties' own checks compare states, arguments and results only.")
     for c, impl, model, raw in out[:3]:
         res.samples.append({"keys": c.keys, "cols": c.cols, "impl": " ## ".join(impl)[:300]})
 
